@@ -224,8 +224,10 @@ static void shard_begin(int shard, long long resume_after)
 }
 static void open_worker_file(const std::string &tag)
 {
-  if (!vr::replaying() && vr::deadline_passed())
+  if (!vr::replaying() && vr::deadline_passed()) {
     g_stop = true;
+    G->capped.store(1);
+  }
   g_file = g_dir + "/" + tag + ".xml";
   g_err = g_dir + "/" + tag + ".err";
   g_fd = open(g_file.c_str(), O_WRONLY | O_CREAT | O_TRUNC, 0600);
